@@ -418,14 +418,29 @@ func (m *Machine) convert(v Value, from, to types.Type) Value {
 			if w, _, ok := bytesElem(s.Elem()); ok && w == 32 { // []rune -> string
 				n := m.concretize(sv.len)
 				rs := make([]rune, n)
+				allConst := true
 				for i := range rs {
 					t := sv.c.arr.Select(tt, tt.Bin(OpAdd, sv.off, tt.BV(uint64(i), 64)))
 					if !t.IsConst() {
-						panic(unsupported("string([]rune) with symbolic runes"))
+						allConst = false
+						break
 					}
 					rs[i] = rune(t.SInt())
 				}
-				return m.mkStr(string(rs))
+				if allConst {
+					return m.mkStr(string(rs))
+				}
+				// symbolic runes: UTF-8 encoding with the length class of each rune forked
+				var arr Arr = ArrZero{8}
+				pos := uint64(0)
+				for i := uint64(0); i < n; i++ {
+					t := sv.c.arr.Select(tt, tt.Bin(OpAdd, sv.off, tt.BV(i, 64)))
+					for _, b := range m.encodeRune(t) {
+						arr = storeArr(tt, arr, tt.BV(pos, 64), b)
+						pos++
+					}
+				}
+				return StrV{arr: arr, n: tt.BV(pos, 64)}
 			}
 		}
 	case isStr(fb):
@@ -787,4 +802,44 @@ func (m *Machine) nextRange(it *RangeIter, x *ssa.Next) Value {
 	}
 	mt := x.Iter.(*ssa.Range).X.Type().Underlying().(*types.Map)
 	return TupleV{tt.ff, m.zeroValue(mt.Key()), m.zeroValue(mt.Elem())}
+}
+
+// encodeRune: the UTF-8 bytes of a (possibly symbolic) 32-bit rune, as Go's string conversion produces them; the
+// length class (1..4 bytes, or an invalid value which becomes U+FFFD) is a forked decision.
+func (m *Machine) encodeRune(t *Term) []*Term {
+	tt := m.tt
+	if t.w != 32 {
+		t = tt.Extract(t, 31, 0)
+	}
+	c := func(v uint64) *Term { return tt.BV(v, 32) }
+	in := func(lo, hi uint64) *Term { return tt.And(tt.Cmp(OpULE, c(lo), t), tt.Cmp(OpULE, t, c(hi))) }
+	classes := []*Term{in(0, 0x7f), in(0x80, 0x7ff), tt.Or(in(0x800, 0xd7ff), in(0xe000, 0xffff)), in(0x10000, 0x10ffff)}
+	invalid := tt.Not(tt.Or(classes...))
+	classes = append(classes, invalid)
+	k := 0
+	if t.IsConst() {
+		for i, cl := range classes {
+			if cl.IsTrue() {
+				k = i
+			}
+		}
+	} else {
+		k = m.decide(len(classes), func(i int) *Term { return classes[i] })
+	}
+	b8 := func(x *Term) *Term { return tt.Extract(x, 7, 0) }
+	shr := func(x *Term, n uint64) *Term { return tt.Bin(OpLShr, x, c(n)) }
+	cont := func(x *Term) *Term { // 10xxxxxx from the low six bits
+		return tt.Bin(OpBOr, tt.BV(0x80, 8), tt.Bin(OpBAnd, b8(x), tt.BV(0x3f, 8)))
+	}
+	switch k {
+	case 0:
+		return []*Term{b8(t)}
+	case 1:
+		return []*Term{tt.Bin(OpBOr, tt.BV(0xc0, 8), b8(shr(t, 6))), cont(t)}
+	case 2:
+		return []*Term{tt.Bin(OpBOr, tt.BV(0xe0, 8), b8(shr(t, 12))), cont(shr(t, 6)), cont(t)}
+	case 3:
+		return []*Term{tt.Bin(OpBOr, tt.BV(0xf0, 8), b8(shr(t, 18))), cont(shr(t, 12)), cont(shr(t, 6)), cont(t)}
+	}
+	return []*Term{tt.BV(0xef, 8), tt.BV(0xbf, 8), tt.BV(0xbd, 8)}
 }
